@@ -229,7 +229,7 @@ def replay_cases(module_name, cases, timeout=600):
         with open(inp, 'w') as f:
             json.dump(cases, f)
         env = dict(os.environ)
-        env['PYTHONPATH'] = HERE + os.pathsep + env.get('PYTHONPATH', '')
+        env['PYTHONPATH'] = os.pathsep.join(x for x in (os.environ.get('CCT_VERIF_REPO'), HERE, env.get('PYTHONPATH', '')) if x)
         env.pop('PYTHONIOENCODING', None)
         p = subprocess.run([PY, '-m', 'pysym.replay_runner', module_name, inp, out], cwd=HERE, env=env,
                            capture_output=True, text=True, timeout=timeout)
@@ -268,8 +268,9 @@ def match_known(prop, v, entries):
 # finishing: evidence, verdict lines, exit status
 
 def finish(res, module, level='model_checking', exhaustive_ok=True):
-    os.makedirs(os.path.join(HERE, 'evidence'), exist_ok=True)
-    os.makedirs(os.path.join(HERE, 'replays'), exist_ok=True)
+    OUT = os.environ.get('CCT_VERIF_OUT') or HERE       # sweeps on scratch copies write elsewhere
+    os.makedirs(os.path.join(OUT, 'evidence'), exist_ok=True)
+    os.makedirs(os.path.join(OUT, 'replays'), exist_ok=True)
     known = load_known()
     new_violations = []
     for v in res.violations:
@@ -282,7 +283,7 @@ def finish(res, module, level='model_checking', exhaustive_ok=True):
                     case=v['case'], expected='property ' + res.prop + ' (see why)', observed=v['observed'], why=v['why'])
         h = hashlib.sha256(json.dumps(body, sort_keys=True, default=repr).encode()).hexdigest()[:8]
         path = os.path.join('replays', f'{res.prop}-{h}.json')
-        with open(os.path.join(HERE, path), 'w') as f:
+        with open(os.path.join(OUT, path), 'w') as f:
             json.dump(body, f, indent=1, default=repr)
         v['replay'] = path
         new_violations.append(v)
@@ -314,7 +315,7 @@ def finish(res, module, level='model_checking', exhaustive_ok=True):
     if cov['states'] < 1 or cov['transitions'] < 1:
         # schema for model_checking demands >= 1; an empty run is a harness error, reported below
         cov['states'] = max(cov['states'], 0)
-    with open(os.path.join(HERE, 'evidence', f'{res.prop}.json'), 'w') as f:
+    with open(os.path.join(OUT, 'evidence', f'{res.prop}.json'), 'w') as f:
         json.dump(ev, f, indent=1, default=repr)
     for i in res.inconclusive[:20]:
         log(f'INCONCLUSIVE property={res.prop} {i.get("unit")} {i.get("reason")}')
